@@ -13,6 +13,7 @@ import (
 	sdk "github.com/cosmos/cosmos-sdk/types"
 	"github.com/ethereum/go-ethereum/common"
 
+	"github.com/functionx/fx-core/v8/app"
 	fxtypes "github.com/functionx/fx-core/v8/types"
 	crosschaintypes "github.com/functionx/fx-core/v8/x/crosschain/types"
 	erc20types "github.com/functionx/fx-core/v8/x/erc20/types"
@@ -42,10 +43,11 @@ type poolSpec struct {
 	ExtBlockMs     uint64 `json:"ext_block_ms"`
 	FxBlockMs      uint64 `json:"fx_block_ms"`
 	ExtCalls       bool   `json:"ext_calls"`
-	Flood          bool   `json:"flood"`      // start with more pooled transfers of one token than a batch takes
-	LongPark       bool   `json:"long_park"`  // start with a deposit that is observed but executed only after more than a hundred later events
-	IBCTarget      bool   `json:"ibc_target"` // not a history: deposits whose target is another chain over IBC, with less voucher liquidity than the deposit
-	OldChain       bool   `json:"old_chain"`  // fxcore's own height is far above every external height and timeout of the history
+	Flood          bool   `json:"flood"`       // start with more pooled transfers of one token than a batch takes
+	LongPark       bool   `json:"long_park"`   // start with a deposit that is observed but executed only after more than a hundred later events
+	FreshChain     bool   `json:"fresh_chain"` // not a history: a bridge token installed by the genesis state, no external event observed yet
+	IBCTarget      bool   `json:"ibc_target"`  // not a history: deposits whose target is another chain over IBC, with less voucher liquidity than the deposit
+	OldChain       bool   `json:"old_chain"`   // fxcore's own height is far above every external height and timeout of the history
 }
 
 func poolCases(seed uint64, tier, prop string) []core.Case {
@@ -67,6 +69,9 @@ func poolCases(seed uint64, tier, prop string) []core.Case {
 			s.FxBlockMs = s.ExtBlockMs * uint64(20+rng.IntN(40))
 		}
 		out = append(out, core.MkCase(fmt.Sprintf("%s-pool-%03d", prop, i), s))
+	}
+	if prop == "C06" {
+		out = append(out, core.MkCase(fmt.Sprintf("%s-fresh-chain", prop), poolSpec{Seed: rng.Uint64(), FreshChain: true}))
 	}
 	if prop == "C04" {
 		k := 2
@@ -168,6 +173,14 @@ func runPool(cs core.Case, verbose bool, c04, c05, c06 bool) core.CaseResult {
 	res := core.CaseResult{}
 	if err := json.Unmarshal(cs.Spec, &spec); err != nil {
 		res.Inconclusive = err.Error()
+		return res
+	}
+	if spec.FreshChain {
+		if c06 {
+			c06FreshChainCase(spec.Seed, &res, verbose)
+		}
+		res.Sig = "fresh-chain"
+		res.Sample = map[string]interface{}{"spec": spec}
 		return res
 	}
 	if spec.IBCTarget {
@@ -606,6 +619,68 @@ func (r *poolRun) syncModel(cn, op string, allow map[string]bool) {
 			}
 			cr.Loc = "refunded"
 		}
+	}
+}
+
+// c06FreshChainCase: the genesis state of a bridge module already lists a bridge token (as after an upgrade
+// that adds a chain), oracles are bonded, a holder queues a transfer -- and no external event has been observed
+// yet. Nothing can be batched: a batch needs a timeout, and a timeout needs an observed external height.
+func c06FreshChainCase(seed uint64, res *core.CaseResult, verbose bool) {
+	const cn = "eth"
+	ext := fix.TokenAddr(seed, "genesis-token", 0)
+	bd := crosschaintypes.NewBridgeDenom(cn, fix.ExtAddr(cn, ext))
+	c := chain.New(chain.Config{Seed: seed, NumVals: 2, NumUsers: 4, GenesisHook: func(c *chain.Chain, gs app.GenesisState) {
+		cdc := c.App.AppCodec()
+		var cg crosschaintypes.GenesisState
+		cdc.MustUnmarshalJSON(gs[cn], &cg)
+		cg.BridgeTokens = append(cg.BridgeTokens, crosschaintypes.BridgeToken{Token: bd, Denom: bd})
+		gs[cn] = cdc.MustMarshalJSON(&cg)
+	}})
+	w := fix.NewWorld(c)
+	b, err := w.AddBridge(cn, []sdkmath.Int{chain.FX(10000), chain.FX(10000), chain.FX(10000)})
+	if err != nil {
+		res.Inconclusive = "bridge: " + err.Error()
+		return
+	}
+	c.Next()
+	pair, err := fix.RegisterCoin(c, "Genesis token", "GEN", 18, bd)
+	if err != nil {
+		res.Inconclusive = err.Error()
+		return
+	}
+	if h := b.ObservedHeight(); h != 0 || b.K.GetLastObservedEventNonce(c.Ctx) != 0 {
+		res.Inconclusive = fmt.Sprintf("an external height (%d) has been observed already", h)
+		return
+	}
+	user := c.Users[1]
+	fix.Fund(c, user.Acc(), sdk.NewCoin(pair.Denom, sdkmath.NewInt(100_000)))
+	// (the genesis balances of such a chain hold the bridge-denomination backing of the coins in circulation)
+	for _, m := range []string{cn, erc20types.ModuleName} {
+		if err := c.App.BankKeeper.MintCoins(c.Ctx, m, sdk.NewCoins(sdk.NewCoin(bd, sdkmath.NewInt(100_000)))); err != nil {
+			res.Inconclusive = "backing: " + err.Error()
+			return
+		}
+	}
+	for i := 0; i < 40; i++ {
+		c.Next()
+	}
+	_, sr := b.SendToExternal(user, c.Users[2].Hex(), sdk.NewCoin(pair.Denom, sdkmath.NewInt(1000)), sdk.NewCoin(pair.Denom, sdkmath.NewInt(10)))
+	if !sr.OK() {
+		res.Inconclusive = "send: " + sr.ErrString()
+		return
+	}
+	n, br := b.RequestBatch(b.Oracles[0], bd, sdkmath.NewInt(1), sdkmath.ZeroInt(), c.Users[2].Hex())
+	res.Count("fresh_chain_batch_requests", 1)
+	if verbose {
+		fmt.Printf("fresh chain: request batch -> nonce=%d ok=%v %s; batches stored %d\n", n, br.OK(), short(br.ErrString()), len(b.Batches()))
+	}
+	res.Nontrivial = true
+	if br.OK() || len(b.Batches()) > 0 {
+		to := uint64(0)
+		if bs := b.Batches(); len(bs) > 0 {
+			to = bs[0].BatchTimeout
+		}
+		res.Violate("C06/batch-without-observed-height", "a batch (timeout %d) was created on a chain on which no external event has been observed yet (fxcore height %d)", to, c.Height)
 	}
 }
 
